@@ -596,10 +596,12 @@ Inductive wsgi_res :=
 | WsOutOfFuel.
 
 Definition catchall (ev : list event) (st : rstate) : wsgi_res :=
-  match utf8_encode (critical_page (e_path env)) with             (* tob(err) *)
-  | Some b => WsOk (ev ++ [EvStart l_catchall catchall_headers true]) (WList [b]) st false
-  | None => WsEscaped (ev ++ [EvStart l_catchall catchall_headers true])
-  end.
+  let ev' := ev ++ [EvStart l_catchall catchall_headers true] in
+  if e_head env then WsOk ev' (WList []) st false                 (* fix F31: no body for HEAD *)
+  else match utf8_encode (critical_page (e_path env)) with        (* tob(err) *)
+       | Some b => WsOk ev' (WList [b]) st false
+       | None => WsEscaped ev'
+       end.
 
 Definition wsgi (p : program) : wsgi_res :=
   let '(evH, st, o) := handle p in
